@@ -14,7 +14,8 @@ from psv.simk import _pslinux, psutil
 
 KEYS = ["Size", "KernelPageSize", "MMUPageSize", "Rss", "Pss", "Pss_Dirty", "Shared_Clean", "Shared_Dirty", "Private_Clean", "Private_Dirty",
         "Referenced", "Anonymous", "LazyFree", "AnonHugePages", "ShmemPmdMapped", "FilePmdMapped", "Shared_Hugetlb", "Private_Hugetlb", "Swap", "SwapPss", "Locked"]
-PATHS = [None, "/usr/lib/a b.so", "/x:y", "/l (deleted)", "[heap]", "/opt/two  blanks\tand a tab.so", "/opt/caf\udce9/lib\udcff.so"]
+# (the kernel escapes only the newline in a mapping's path: a carriage return, a form feed, the C1 separators reach the reader as they are)
+PATHS = [None, "/usr/lib/a b.so", "/x:y", "/l (deleted)", "[heap]", "/opt/two  blanks\tand a tab.so", "/opt/caf\udce9/lib\udcff.so", "/data/blob\rx 1 2 3 4.bin", "/data/a\x0cb\x1cc.so"]
 F = ["Rss", "Size", "Pss", "Shared_Clean", "Shared_Dirty", "Private_Clean", "Private_Dirty", "Referenced", "Anonymous", "Swap"]
 PG = 4096
 
@@ -121,6 +122,35 @@ VALID = ["rss", "vms", "shared", "text", "lib", "data", "dirty", "uss", "pss", "
 
 
 BAD_NAMES = ["count", "index", "_fields", "_asdict", "_replace", "__len__", "__doc__", "RSS", "rss ", "", "uss,pss"]
+
+
+@harness("C13.after_aborted_block")
+def after_aborted_block(ctx):
+    """memory_info() / memory_percent() asked inside a oneshot() block that is then left by an exception, the process's memory changes,
+    and they are asked again on the same object: the second answers are those of the second statm record"""
+    k = simk.Kernel(ctx)
+    simk.system_files(k)
+    simk.full_process(k, 77)
+    a = [ctx.int(f"rss_pages{i}", 0, 2**40) for i in (0, 1)]
+    k.files["/proc/77/statm"] = b"100 " + k.num(a[0]) + b" 25 10 0 30 0\n"
+    how = ctx.choice("block_left_by", ["exception", "normally"])
+
+    class Boom(Exception):
+        pass
+
+    with k.installed():
+        p = psutil.Process(77)
+        try:
+            with p.oneshot():
+                r1 = p.memory_info().rss
+                if how == "exception":
+                    raise Boom()
+        except Boom:
+            pass
+        k.files["/proc/77/statm"] = b"100 " + k.num(a[1]) + b" 25 10 0 30 0\n"
+        r2 = p.memory_info().rss
+    ctx.prove(ctx.eq(r1, a[0] * 4096), "memory_info-pages-times-pagesize", detail="inside the block")
+    ctx.prove(ctx.eq(r2, a[1] * 4096), "memory_info-pages-times-pagesize", detail=f"after the block (left {how}): the record changed")
 
 
 @harness("C13.percent", quick=[dict(kind="valid", L=0), dict(kind="other", L=3), dict(kind="witness", L=0)], thorough=[dict(kind="valid", L=0), dict(kind="witness", L=0)] + [dict(kind="other", L=L) for L in (0, 1, 3, 4, 6)])
